@@ -44,6 +44,13 @@ def cu_at(ctx, o):
     yield from _cu(ctx, o)
 
 
+@op('cu_at_stale')
+def cu_at_stale(ctx, o):
+    """get_CU_at with an offset that is not a unit start (a stale table offset).  Only kept in a pool when the call, made
+    alone, is *rejected*: a rejected query must leave no trace."""
+    yield from _cu(ctx, o)
+
+
 @op('cu_containing')
 def cu_containing(ctx, x):
     ok, dw = _dw(ctx)
@@ -202,6 +209,28 @@ def addr_get(ctx, cu_off, idx):
 
 def _entries_digest(entries):
     return ('entries', len(entries), digest(canon(entries)))
+
+
+@op('lineprog_after')
+def lineprog_after(ctx, cu_off):
+    """Decode the line program of a unit, then read the header's file table (as it is after decoding)."""
+    ok, dw = _dw(ctx)
+    if not ok:
+        yield dw
+        return
+    ok, cu = yield from one(dw.get_CU_at, cu_off)
+    if not ok:
+        return
+    ok, lp = call(dw.line_program_for_CU, cu)
+    if not ok:
+        yield lp
+        return
+    if lp is None:
+        yield None
+        return
+    ok, _e = yield from one(lp.get_entries, conv=_entries_digest)
+    if ok:
+        yield from one(lambda: (canon(lp.header['file_entry']), canon(lp.header.get('include_directory'))))
 
 
 @op('lineprog_seq')
